@@ -331,6 +331,10 @@ def run(repo, rep, tier):
     from . import cnative
     from .shared import contiguity
     cnative.statics(repo, rep, "R-C06-6")
+    rep.rule("R-C06-9", "(shared with C05) no positional axis / Ellipsis index / positional broadcast on the bare data of a labelled array in "
+                        "label-level code: with leading time / site dimensions the last stored axis is not the spectral one the code assumes")
+    from .c05 import raw_positional
+    raw_positional(repo, rep, "R-C06-9")
     rep.rule("R-C06-8", "coordinates are only re-labelled along spectral dimensions (or restored wholesale from the very object the data "
                         "came from): re-labelling a batch dimension with another object's labels pairs spectra by storage position")
     nac = 0
